@@ -41,5 +41,13 @@ def fill(add, pending):
         'repository suite pins); value kinds limited to those both dumpers support.',
         'deterministic simulation: seeded history search + version-skew fault on a writer->channel->reader pipeline vs decision model',
         'DESIGN.md section 3 C10')
-    for pid in ('C09',):
-        pending[pid] = 'designed (DESIGN.md section 3) but its check is not built yet in this commit; not claimed until it is'
+    add('C09', 'wire', 'fault_enumeration',
+        'Writer -> faulty channel -> reader pipeline: per base document (stub peer with span annotations, hszinc.dump output, scalar '
+        'tokens; 2.0 and 3.0; single and multi-grid; str and bytes API) EVERY truncation offset of small documents is delivered, plus '
+        'seeded lost/duplicated/reordered/flipped/inserted/spliced/CRLF/charset/BOM/NUL/version-skew deliveries and placed faults '
+        'whose post-condition is guaranteed-broken (must be rejected). Each delivery is judged: outcome class, exception type, '
+        'line/col inside the text, termination on a deterministic clock, purity, and behaviour under a faulted stdout.',
+        'Trusted: stub peer annotations (which spans are strings/brackets/names); the clock (count of pyparsing match attempts, budget '
+        '200 x the fault-free parse); a delivered text that still parses is not compared with the base grid.',
+        'deterministic simulation: writer->channel->reader pipeline with enumerated truncations and seeded channel/stdout faults',
+        'DESIGN.md section 3 C09')
